@@ -199,9 +199,12 @@ class MLIRTokenKind(Enum):
         """
         if self != MLIRTokenKind.INTEGER_LIT:
             raise ValueError("Token is not an integer literal!")
-        if span.text[:2] in ["0x", "0X"]:
-            return int(span.text, 16)
-        return int(span.text, 10)
+        try:
+            if span.text[:2] in ["0x", "0X"]:
+                return int(span.text, 16)
+            return int(span.text, 10)
+        except ValueError as e:
+            raise ParseError(span, f"invalid integer literal: {e}") from e
 
     def get_float_value(self, span: Span):
         """
@@ -211,7 +214,10 @@ class MLIRTokenKind(Enum):
         """
         if self != MLIRTokenKind.FLOAT_LIT:
             raise ValueError("Token is not a float literal!")
-        return float(span.text)
+        try:
+            return float(span.text)
+        except ValueError as e:
+            raise ParseError(span, f"invalid float literal: {e}") from e
 
     def get_string_literal_value(self, span: Span) -> str:
         """
